@@ -421,4 +421,356 @@ theorem removeNonProductive_closed (s : CNT) (tbl : Table) (hwf : TableWF tbl) :
   simp only [List.all_eq_true, List.contains_iff_mem] at this
   exact this a ha
 
+/-! ### `eraseDups` (the `set` of newly reached non-terminals) -/
+
+theorem eraseDups_spec {α : Type} [BEq α] [LawfulBEq α] :
+    ∀ (n : Nat) (l : List α), l.length ≤ n → (∀ x, x ∈ l.eraseDups ↔ x ∈ l) ∧ l.eraseDups.Nodup := by
+  intro n
+  induction n with
+  | zero =>
+    intro l hl
+    have : l = [] := List.length_eq_zero_iff.mp (by omega)
+    subst this
+    simp
+  | succ n ih =>
+    intro l hl
+    cases l with
+    | nil => simp
+    | cons a as =>
+      rw [List.eraseDups_cons]
+      have hlen : (as.filter (fun b => !b == a)).length ≤ n := by
+        have := List.length_filter_le (fun b => !b == a) as
+        simp only [List.length_cons] at hl
+        omega
+      obtain ⟨hmem, hnd⟩ := ih _ hlen
+      constructor
+      · intro x
+        simp only [List.mem_cons, hmem, List.mem_filter]
+        by_cases hx : x = a
+        · simp [hx]
+        · simp [hx]
+      · rw [List.nodup_cons]
+        refine ⟨?_, hnd⟩
+        rw [hmem]
+        simp
+
+theorem mem_eraseDups {α : Type} [BEq α] [LawfulBEq α] (l : List α) (x : α) : x ∈ l.eraseDups ↔ x ∈ l :=
+  (eraseDups_spec l.length l (Nat.le_refl _)).1 x
+
+theorem nodup_eraseDups {α : Type} [BEq α] [LawfulBEq α] (l : List α) : l.eraseDups.Nodup :=
+  (eraseDups_spec l.length l (Nat.le_refl _)).2
+
+/-! ### `_remove_non_reachable_` -/
+
+/-- the argument non-terminals of the rules of `nt` -/
+def kidsT (tbl : Table) (nt : CNT) : List CNT :=
+  ((AList.lookup nt tbl).getD []).flatMap (fun r => r.2.1.map toNT)
+
+theorem mem_kidsT (tbl : Table) (nt k : CNT) :
+    k ∈ kidsT tbl nt ↔ ∃ rs r a, AList.lookup nt tbl = some rs ∧ r ∈ rs ∧ a ∈ r.2.1 ∧ toNT a = k := by
+  unfold kidsT
+  cases h : AList.lookup nt tbl with
+  | none => simp
+  | some rs =>
+    simp only [Option.getD_some, List.mem_flatMap, List.mem_map, Option.some.injEq]
+    constructor
+    · rintro ⟨r, hr, a, ha, rfl⟩; exact ⟨rs, r, a, rfl, hr, ha, rfl⟩
+    · rintro ⟨rs', r, a, rfl, hr, ha, rfl⟩; exact ⟨r, hr, a, ha, rfl⟩
+
+/-- invariant of the breadth-first loop -/
+structure RInv (start : CNT) (tbl : Table) (todo seen : List CNT) : Prop where
+  nodup : seen.Nodup
+  todo_sub : ∀ x ∈ todo, x ∈ seen
+  keys : ∀ x ∈ seen, x ∈ AList.keys tbl
+  reach : ∀ x ∈ seen, Reach (⟨start, tbl⟩ : CFG) x
+  closed : ∀ x ∈ seen, x ∈ todo ∨ ∀ k ∈ kidsT tbl x, k ∈ seen
+  start : start ∈ seen
+
+theorem kidsT_keys (tbl : Table) (hc : ArgsClosed tbl) (nt k : CNT) (h : k ∈ kidsT tbl nt) :
+    k ∈ AList.keys tbl := by
+  obtain ⟨rs, r, a, h1, h2, h3, rfl⟩ := (mem_kidsT tbl nt k).mp h
+  exact hc (nt, rs) (AList.lookup_some_mem h1) r h2 a h3
+
+/-- **the breadth-first loop computes the reachability closure** (its fuel is never exhausted) -/
+theorem reachFix_spec (start : CNT) (tbl : Table) (hc : ArgsClosed tbl) :
+    ∀ (fuel : Nat) (todo seen : List CNT), RInv start tbl todo seen →
+      todo.length + (tbl.length - seen.length) + 1 ≤ fuel →
+      RInv start tbl [] (reachFix tbl fuel todo seen) := by
+  intro fuel
+  induction fuel with
+  | zero => intro todo seen _ h; omega
+  | succ fuel ih =>
+    intro todo seen h hf
+    cases todo with
+    | nil => simp only [reachFix]; exact h
+    | cons nt todo =>
+      rw [reachFix]
+      change RInv start tbl [] (reachFix tbl fuel
+        (todo ++ ((kidsT tbl nt).filter (fun k => !(seen.contains k))).eraseDups)
+        (seen ++ ((kidsT tbl nt).filter (fun k => !(seen.contains k))).eraseDups))
+      have hmem : ∀ x, x ∈ ((kidsT tbl nt).filter (fun k => !(seen.contains k))).eraseDups ↔
+          x ∈ kidsT tbl nt ∧ x ∉ seen := by
+        intro x
+        rw [mem_eraseDups, List.mem_filter]
+        simp
+      have hnd := nodup_eraseDups ((kidsT tbl nt).filter (fun k => !(seen.contains k)))
+      generalize ((kidsT tbl nt).filter (fun k => !(seen.contains k))).eraseDups = new at hmem hnd ⊢
+      have hnt : nt ∈ seen := h.todo_sub nt (by simp)
+      have hinv : RInv start tbl (todo ++ new) (seen ++ new) := by
+        refine ⟨?_, ?_, ?_, ?_, ?_, ?_⟩
+        · rw [List.nodup_append]
+          refine ⟨h.nodup, hnd, ?_⟩
+          intro a ha b hb hab
+          subst hab
+          exact ((hmem a).mp hb).2 ha
+        · intro x hx
+          rcases List.mem_append.mp hx with hx | hx
+          · exact List.mem_append_left _ (h.todo_sub x (List.mem_cons_of_mem _ hx))
+          · exact List.mem_append_right _ hx
+        · intro x hx
+          rcases List.mem_append.mp hx with hx | hx
+          · exact h.keys x hx
+          · exact kidsT_keys tbl hc nt x ((hmem x).mp hx).1
+        · intro x hx
+          rcases List.mem_append.mp hx with hx | hx
+          · exact h.reach x hx
+          · obtain ⟨rs, r, a, h1, h2, h3, rfl⟩ := (mem_kidsT tbl nt x).mp ((hmem x).mp hx).1
+            exact Reach.step (h.reach nt hnt) h1 h2 h3
+        · intro x hx
+          rcases List.mem_append.mp hx with hx | hx
+          · rcases h.closed x hx with hcase | hcase
+            · rcases List.mem_cons.mp hcase with rfl | hcase
+              · right
+                intro k hk
+                by_cases hks : k ∈ seen
+                · exact List.mem_append_left _ hks
+                · exact List.mem_append_right _ ((hmem k).mpr ⟨hk, hks⟩)
+              · left; exact List.mem_append_left _ hcase
+            · right
+              intro k hk
+              exact List.mem_append_left _ (hcase k hk)
+          · left; exact List.mem_append_right _ hx
+        · exact List.mem_append_left _ h.start
+      apply ih _ _ hinv
+      have hle := length_le_of_nodup_subset hinv.nodup hinv.keys
+      simp only [AList.keys, List.length_map, List.length_append] at hle
+      simp only [List.length_append, List.length_cons] at hf ⊢
+      omega
+
+/-- the reachable set computed by `removeNonReachable` -/
+def reachSet (start : CNT) (tbl : Table) : List CNT :=
+  reachFix tbl (tbl.length * tbl.length + tbl.length + 1) [start] [start]
+
+theorem reachSet_spec (start : CNT) (tbl : Table) (hc : ArgsClosed tbl)
+    (hs : start ∈ AList.keys tbl) : RInv start tbl [] (reachSet start tbl) := by
+  apply reachFix_spec start tbl hc
+  · refine ⟨by simp, fun x hx => hx, ?_, ?_, ?_, by simp⟩
+    · intro x hx
+      rw [List.mem_singleton.mp hx]; exact hs
+    · intro x hx
+      rw [List.mem_singleton.mp hx]; exact Reach.start
+    · intro x hx
+      left; exact hx
+  · have : 1 ≤ tbl.length := by
+      have : 0 < (AList.keys tbl).length := List.length_pos_of_mem hs
+      simp only [AList.keys, List.length_map] at this
+      omega
+    generalize tbl.length * tbl.length = q
+    simp only [List.length_cons, List.length_nil]
+    omega
+
+/-- everything reachable is in a set that contains the start and is closed under arguments -/
+theorem mem_of_reach (start : CNT) (tbl : Table) (R : List CNT) (hs : start ∈ R)
+    (hcl : ∀ x ∈ R, ∀ k ∈ kidsT tbl x, k ∈ R) (nt : CNT) (h : Reach (⟨start, tbl⟩ : CFG) nt) : nt ∈ R := by
+  induction h with
+  | start => exact hs
+  | step _ h1 h2 h3 ih =>
+    exact hcl _ ih _ ((mem_kidsT tbl _ _).mpr ⟨_, _, _, h1, h2, h3, rfl⟩)
+
+/-- **the set computed by `_remove_non_reachable_` is exactly the set of non-terminals
+    reachable from the start symbol** -/
+theorem mem_reachSet_iff (start : CNT) (tbl : Table) (hc : ArgsClosed tbl)
+    (hs : start ∈ AList.keys tbl) (nt : CNT) :
+    nt ∈ reachSet start tbl ↔ Reach (⟨start, tbl⟩ : CFG) nt := by
+  have h := reachSet_spec start tbl hc hs
+  constructor
+  · exact h.reach nt
+  · apply mem_of_reach start tbl _ h.start
+    intro x hx
+    rcases h.closed x hx with hcase | hcase
+    · cases hcase
+    · exact hcase
+
+theorem removeNonReachable_eq (start : CNT) (tbl : Table) :
+    removeNonReachable start tbl =
+      if AList.contains start tbl = true then
+        some (tbl.filter (fun e => (reachSet start tbl).contains e.1)) else none := by
+  unfold removeNonReachable reachSet
+  cases AList.contains start tbl <;> simp
+
+/-- the table restricted to a set of non-terminals -/
+def restrict (R : List CNT) (tbl : Table) : Table := tbl.filter (fun e => R.contains e.1)
+
+theorem lookup_restrict (R : List CNT) (tbl : Table) (nt : CNT) :
+    AList.lookup nt (restrict R tbl) = if nt ∈ R then AList.lookup nt tbl else none := by
+  have := lookup_filter_key (fun k => R.contains k) tbl nt
+  simpa [restrict] using this
+
+theorem restrict_wf (R : List CNT) (tbl : Table) (hwf : TableWF tbl) : TableWF (restrict R tbl) :=
+  ⟨(keys_filter_sublist _ tbl).nodup hwf.keys, fun e he => hwf.rows e (List.mem_filter.mp he).1⟩
+
+/-- restricting to a set closed under arguments keeps the language of its members -/
+theorem gen_restrict (s : CNT) (tbl : Table) (R : List CNT)
+    (hcl : ∀ x ∈ R, ∀ k ∈ kidsT tbl x, k ∈ R) :
+    ∀ (n : Nat) (t : Prog), t.size ≤ n → ∀ nt ∈ R,
+      gen (⟨s, restrict R tbl⟩ : CFG) t nt = gen (⟨s, tbl⟩ : CFG) t nt := by
+  intro n
+  induction n with
+  | zero =>
+    intro t ht
+    cases t with | node f kids => simp [Tree.size] at ht
+  | succ n ih =>
+    intro t ht nt hnt
+    cases t with
+    | node f kids =>
+      rw [gen, gen]
+      unfold TT.rule?
+      simp only [lookup_restrict, hnt, if_true]
+      cases h1 : AList.lookup nt tbl with
+      | none => rfl
+      | some rs =>
+        simp only
+        cases h2 : AList.lookup f rs with
+        | none => rfl
+        | some v =>
+          obtain ⟨args, u⟩ := v
+          simp only
+          apply genList_congr
+          intro k hk a ha
+          have := Tree.size_lt_of_mem_kids (l := f) hk
+          apply ih k (by omega)
+          exact hcl nt hnt _ ((mem_kidsT tbl nt _).mpr ⟨rs, _, a, h1, AList.lookup_some_mem h2, ha, rfl⟩)
+
+theorem reach_restrict (start : CNT) (tbl : Table) (R : List CNT) (hs : start ∈ R)
+    (hcl : ∀ x ∈ R, ∀ k ∈ kidsT tbl x, k ∈ R) (nt : CNT) (h : Reach (⟨start, tbl⟩ : CFG) nt) :
+    Reach (⟨start, restrict R tbl⟩ : CFG) nt := by
+  induction h with
+  | start => exact Reach.start
+  | @step nt' rs r a hr h1 h2 h3 ih =>
+    have hin : nt' ∈ R := mem_of_reach start tbl R hs hcl nt' hr
+    refine Reach.step ih (rs := rs) ?_ h2 h3
+    change AList.lookup nt' (restrict R tbl) = some rs
+    rw [lookup_restrict]; simp only [hin, if_true]; exact h1
+
+/-! ### `clean` -/
+
+/-- what `clean` guarantees about its result `T'` -/
+structure CleanSpec (start : CNT) (tbl T' : Table) : Prop where
+  /-- the language of the start symbol is unchanged -/
+  lang : ∀ t, gen (⟨start, T'⟩ : CFG) t start = gen (⟨start, tbl⟩ : CFG) t start
+  /-- more generally the language of every remaining non-terminal is unchanged -/
+  lang_key : ∀ nt ∈ AList.keys T', ∀ t, gen (⟨start, T'⟩ : CFG) t nt = gen (⟨start, tbl⟩ : CFG) t nt
+  wf : TableWF T'
+  start_key : start ∈ AList.keys T'
+  reachable : ∀ nt ∈ AList.keys T', Reach (⟨start, T'⟩ : CFG) nt
+  productive : ∀ nt ∈ AList.keys T', ∃ t, gen (⟨start, T'⟩ : CFG) t nt = true
+  closed : ArgsClosed T'
+  /-- nothing is invented: every remaining rule is a rule of the original table -/
+  sub : ∀ e ∈ T', ∃ e0 ∈ tbl, e0.1 = e.1 ∧ ∀ r ∈ e.2, r ∈ e0.2
+  /-- nothing useful is lost: a rule of a remaining non-terminal whose arguments are all
+      productive is kept -/
+  kept : ∀ e ∈ T', ∀ e0 ∈ tbl, e0.1 = e.1 → ∀ r ∈ e0.2,
+    (∀ a ∈ r.2.1, ∃ t, gen (⟨start, tbl⟩ : CFG) t (toNT a) = true) → r ∈ e.2
+
+theorem mem_restrict (R : List CNT) (tbl : Table) (e : CNT × Row) :
+    e ∈ restrict R tbl ↔ e ∈ tbl ∧ e.1 ∈ R := by
+  simp [restrict, List.mem_filter]
+
+/-- **clean, success case**: for ANY dict-of-dicts table, if `clean` does not raise, the
+    cleaned table has the same language, and all its non-terminals are reachable and
+    productive. -/
+theorem clean_some (start : CNT) (tbl T' : Table) (hwf : TableWF tbl)
+    (h : removeNonReachable start (removeNonProductive tbl) = some T') : CleanSpec start tbl T' := by
+  rw [removeNonReachable_eq] at h
+  by_cases hsk : AList.contains start (removeNonProductive tbl) = true
+  · simp only [hsk, if_true, Option.some.injEq] at h
+    have hsk' : start ∈ AList.keys (removeNonProductive tbl) := mem_keys_iff_contains.mpr hsk
+    have hwf1 := removeNonProductive_wf tbl hwf
+    have hc1 := removeNonProductive_closed start tbl hwf
+    have hR := reachSet_spec start (removeNonProductive tbl) hc1 hsk'
+    have hcl : ∀ x ∈ reachSet start (removeNonProductive tbl),
+        ∀ k ∈ kidsT (removeNonProductive tbl) x, k ∈ reachSet start (removeNonProductive tbl) := by
+      intro x hx
+      rcases hR.closed x hx with hcase | hcase
+      · cases hcase
+      · exact hcase
+    have hT : T' = restrict (reachSet start (removeNonProductive tbl)) (removeNonProductive tbl) := h.symm
+    generalize hRdef : reachSet start (removeNonProductive tbl) = R at hR hcl hT
+    subst hT
+    have hkeys : ∀ nt, nt ∈ AList.keys (restrict R (removeNonProductive tbl)) ↔
+        nt ∈ R := by
+      intro nt
+      constructor
+      · intro hm
+        obtain ⟨e, he, rfl⟩ := List.mem_map.mp hm
+        exact ((mem_restrict R _ e).mp he).2
+      · intro hm
+        obtain ⟨e, he, rfl⟩ := List.mem_map.mp (hR.keys nt hm)
+        exact mem_keys_of_mem ((mem_restrict R _ e).mpr ⟨he, hm⟩)
+    have hlang : ∀ nt ∈ R, ∀ t, gen (⟨start, restrict R (removeNonProductive tbl)⟩ : CFG) t nt =
+        gen (⟨start, tbl⟩ : CFG) t nt := by
+      intro nt hnt t
+      rw [gen_restrict start _ R hcl t.size t (Nat.le_refl _) nt hnt,
+        gen_removeNonProductive start tbl hwf t.size t (Nat.le_refl _) nt]
+    refine ⟨hlang start hR.start, fun nt hnt => hlang nt ((hkeys nt).mp hnt), restrict_wf R _ hwf1,
+      (hkeys start).mpr hR.start, ?_, ?_, ?_, ?_, ?_⟩
+    · intro nt hnt
+      exact reach_restrict start _ R hR.start hcl nt (hR.reach nt ((hkeys nt).mp hnt))
+    · intro nt hnt
+      have hntR := (hkeys nt).mp hnt
+      have hK : nt ∈ prodSet tbl := (mem_keys_removeNonProductive start tbl hwf nt).mp (hR.keys nt hntR)
+      obtain ⟨t, ht⟩ := (mem_prodSet_iff start tbl hwf nt).mp hK
+      exact ⟨t, by rw [hlang nt hntR]; exact ht⟩
+    · intro e he r hr a ha
+      obtain ⟨he1, heR⟩ := (mem_restrict R _ e).mp he
+      rw [hkeys]
+      exact hcl e.1 heR _ ((mem_kidsT _ e.1 _).mpr ⟨e.2, r, a, lookup_of_mem hwf1.keys he1, hr, ha, rfl⟩)
+    · intro e he
+      obtain ⟨he1, _⟩ := (mem_restrict R _ e).mp he
+      obtain ⟨e0, he0, _, rfl⟩ := (mem_removeNonProductive tbl e).mp he1
+      exact ⟨e0, he0, rfl, fun r hr => (List.mem_filter.mp hr).1⟩
+    · intro e he e0 he0 hk r hr hprod
+      obtain ⟨he1, _⟩ := (mem_restrict R _ e).mp he
+      obtain ⟨e1, he1', _, rfl⟩ := (mem_removeNonProductive tbl e).mp he1
+      -- same key, distinct keys: same entry
+      have h1 := lookup_of_mem hwf.keys he0
+      have h2 := lookup_of_mem hwf.keys he1'
+      simp only at hk
+      rw [hk, h2] at h1
+      have : e1.2 = e0.2 := Option.some.inj h1
+      simp only [rowFilter, this]
+      refine List.mem_filter.mpr ⟨hr, ?_⟩
+      simp only [List.all_eq_true, List.contains_iff_mem]
+      intro a ha
+      exact (mem_prodSet_iff start tbl hwf _).mpr (hprod a ha)
+  · simp [hsk] at h
+
+/-- **clean, failure case**: `clean` raises (KeyError on the start symbol) exactly when the
+    start symbol derives nothing. -/
+theorem clean_none (start : CNT) (tbl : Table) (hwf : TableWF tbl)
+    (h : removeNonReachable start (removeNonProductive tbl) = none) :
+    ∀ t, gen (⟨start, tbl⟩ : CFG) t start = false := by
+  rw [removeNonReachable_eq] at h
+  by_cases hsk : AList.contains start (removeNonProductive tbl) = true
+  · simp [hsk] at h
+  · intro t
+    cases hg : gen (⟨start, tbl⟩ : CFG) t start with
+    | false => rfl
+    | true =>
+      exfalso
+      apply hsk
+      apply mem_keys_iff_contains.mp
+      rw [mem_keys_removeNonProductive start tbl hwf]
+      exact (mem_prodSet_iff start tbl hwf start).mpr ⟨t, hg⟩
+
 end PS.G
